@@ -9,6 +9,7 @@ models may use arbitrary Python state.
 from __future__ import annotations
 
 import itertools
+import os
 import time
 from dataclasses import dataclass, field
 from typing import Any, Callable
@@ -1018,6 +1019,9 @@ class Ctx:
         self.counter = itertools.count()
         self.solver = z3.Solver()
         self.solver.set('rlimit', rlimit)
+        # a wall-clock bound as well: some feasibility queries ignore the resource limit for minutes. "unknown" counts as feasible
+        # (both branches are explored; instances on infeasible paths are dropped again before discharging), so this is sound.
+        self.solver.set('timeout', int(os.environ.get('PYVC_FEASIBLE_TIMEOUT_MS', '10000')))
         self.check_feasible = check_feasible
         self.names: dict[str, int] = {}
         self.notes: list[str] = []
